@@ -24,6 +24,7 @@ func init() {
 			ruleLookAhead(c, "C16.3")
 			ruleInvokeShape(c, "C16.5")
 			ruleNoDataAfterHalfClose(c, "C16.6")
+			ruleReassembly(c, "C16.7")
 		},
 		Explain: "Static necessary conditions of call-shape enforcement (none of these branches is executed by the suite): the send-count guards dominate the call into the sender with the right polarity and flag per side, incrementing under the write mutex; the look-ahead read exists on the non-streaming edge, turns a second message into the right non-nil status that sticks, and delivers the first message only after io.EOF on an intact stream; Invoke's second receive into a fresh message returning nil only on io.EOF; streaming flags flow from the StreamDesc fields of the same name.",
 		Assume: []string{"generated stubs call NewStream/Invoke with their own StreamDesc"},
@@ -34,6 +35,7 @@ func init() {
 			ruleContextChain(c, "C17.1")
 			ruleContextKeys(c, "C17.2", "C17.3")
 			ruleChannelIdentity(c, "C17.4", "C17.5")
+			ruleMetadataAccumulation(c, "C17.6")
 		},
 		Explain: "Static necessary conditions of identity propagation: the handler context's derivation chain (carrier context -> WithValue(incoming tunnel metadata) -> WithCancel -> NewIncomingContext(request metadata) -> WithTimeout|WithCancel -> server transport stream) with nothing else replacing it; each context key stored and read with matching types; the metadata accessors return Copy() of the value under their own key; the client stream context and the WithTunnelChannel option receive the channel the stream is created on, the pooled channel passing everything through; all four opening paths capture the opening metadata from the carrier's context.",
 		Assume: []string{"metadata.MD.Copy copies the map and its value slices"},
